@@ -177,7 +177,9 @@ namespace awkward {
   const std::pair<int64_t, int64_t>
   RecordForm::minmax_depth() const {
     if (contents_.empty()) {
-      return std::pair<int64_t, int64_t>(0, 0);
+      // records without fields are still one level deep (as purelist_depth
+      // and branch_depth say)
+      return std::pair<int64_t, int64_t>(1, 1);
     }
     int64_t min = kMaxInt64;
     int64_t max = 0;
@@ -969,7 +971,9 @@ namespace awkward {
   const std::pair<int64_t, int64_t>
   RecordArray::minmax_depth() const {
     if (contents_.empty()) {
-      return std::pair<int64_t, int64_t>(0, 0);
+      // records without fields are still one level deep (as purelist_depth
+      // and branch_depth say)
+      return std::pair<int64_t, int64_t>(1, 1);
     }
     int64_t min = kMaxInt64;
     int64_t max = 0;
